@@ -1868,6 +1868,14 @@ int QSexact_solver (mpq_QSdata * p_mpq,
 	 * neither x nor y have been set) */
 	if (*status == QS_LP_OPTIMAL || *status == QS_LP_INFEASIBLE)
 		*status = QS_LP_UNSOLVED;
+	/* likewise a solution cached by the rational evaluation of a basis never
+	 * passed the exact test: it must not be served by a later QSopt_primal */
+	if (p_mpq->cache)
+	{
+		mpq_ILLlp_cache_free (p_mpq->cache);
+		mpq_clear (p_mpq->cache->val);
+		ILL_IFFREE (p_mpq->cache);
+	}
 	/* ending */
 CLEANUP:
 #ifdef QSX_VERIF
